@@ -348,3 +348,55 @@ def rule_py_layout_attrs(rep, floor=500):
                 r.check(called, "%s:method.%s#%d" % (rel, c.attr, k), m.where(c), "%s reads `%s` without calling it: content.cpp binds %s only as a method, so the expression is a bound method, not its value" % (
                     rel, ast.unparse(c)[:60], c.attr), detail="method is called")
     return r.done()
+
+
+def rule_py_record_methods(rep, floor=20):
+    import ast
+    from .. import pyfront as pf
+    r = rep.rule("TABLE.py-record-methods", "a function of src/awkward/operations that converts its argument with to_layout(..., allow_record=True) (the default) and then calls a method on the result outside any isinstance test of that variable "
+                 "only calls methods that ak.layout.Record binds too (src/python/content.cpp make_Record): Record is not a Content subclass - withparameter, localindex, fillna, num ... do not exist on it, so the documented ak.Record input raises AttributeError", floor=floor)
+    rec = {b.name for b in bindings() if b.cls == "make_Record"}
+    if len(rec) < 15:
+        raise AnalysisError("only %d bindings found for ak.layout.Record (anchor moved?)" % len(rec))
+    for rel in [x for x in pf.all_modules() if x.startswith("operations/")]:
+        m = pf.module(rel)
+        for fd in m.tree.body:
+            if not isinstance(fd, ast.FunctionDef):
+                continue
+            lay = {}
+            for s_ in ast.walk(fd):
+                if isinstance(s_, ast.Assign) and len(s_.targets) == 1 and isinstance(s_.targets[0], ast.Name) and isinstance(s_.value, ast.Call) and (pf.dotted(s_.value.func) or "").endswith("to_layout"):
+                    ar = {kw.arg: kw.value for kw in s_.value.keywords}.get("allow_record")
+                    if ar is None or (isinstance(ar, ast.Constant) and ar.value is True):
+                        lay[s_.targets[0].id] = s_.lineno
+            for n in ast.walk(fd):
+                if not (isinstance(n, ast.Attribute) and isinstance(n.value, ast.Name) and n.value.id in lay and n.lineno > lay[n.value.id]):
+                    continue
+                own = None
+                for p_ in pf.parent_chain(n):
+                    if isinstance(p_, (ast.FunctionDef, ast.Lambda)):
+                        own = p_
+                        break
+                if own is not fd:
+                    continue
+                v = n.value.id
+                # inside an arm that established a class for v (any positive isinstance test on v, or the else of a test that names Record)
+                guarded = False
+                for t, inb in pf.enclosing_tests(n):
+                    txt = ast.unparse(t)
+                    if ("isinstance(%s," % v) in txt and (inb or "Record" in txt):
+                        guarded = True
+                # an earlier `if isinstance(v, ...Record...)` arm of the same chain
+                for p_ in pf.parent_chain(n):
+                    if isinstance(p_, ast.If):
+                        q_ = p_
+                        while getattr(q_, "_parent", None) is not None and isinstance(q_._parent, ast.If) and q_._parent.orelse == [q_]:
+                            q_ = q_._parent
+                            if ("isinstance(%s," % v) in ast.unparse(q_.test) and "Record" in ast.unparse(q_.test):
+                                guarded = True
+                key = "%s:%s:%s.%s" % (rel, fd.name, v, n.attr)
+                if guarded:
+                    r.ok(key, "under a class test")
+                    continue
+                r.check(n.attr in rec, key, m.where(n), "%s in %s calls `%s.%s` on the result of to_layout(..., allow_record=True) without a class test: ak.layout.Record has no %s" % (fd.name, rel, v, n.attr, n.attr), detail="bound on Record")
+    return r.done()
